@@ -9,6 +9,7 @@ from pydbml.classes import (Column, Enum, EnumItem, Expression, Index, Note, Pro
                             Reference, Table, TableGroup)
 from pydbml.database import Database  # noqa: E402
 
+from harness import ref_text as RT
 from harness import observe as O  # noqa: E402
 from harness import impl_text as IT  # noqa: E402
 
@@ -32,7 +33,7 @@ def out_of_statement(site, t):
         return 'NotPrintable'
     if site in NOTE_SITES:
         try:
-            if IT.norm_impl(t) != t:
+            if RT.ref_norm(t) != t:
                 return 'NotNormal'
         except Exception:  # noqa: BLE001
             return 'NotNormal'
@@ -188,7 +189,7 @@ def styles_job(t):
     if not printable_or_lf(t):
         return {'skip': 'NotPrintable'}
     try:
-        expected = IT.norm_impl(t)
+        expected = RT.ref_norm(t)
     except Exception:  # noqa: BLE001
         return {'skip': 'norm-raises(whitespace-only)'}
     observed = {}
